@@ -3,9 +3,12 @@
    so these functions cannot panic with overflow checks; the rejection branches never panic at all.
    Statements only; proofs in Proofs/RawOverflow.v, Proofs/Rawdata.v, Proofs/Framebuffer.v.
    The site lists (one boolean per arithmetic operation, in source order) are defined in Proofs/RawOverflow.v.
-   Far more than display scale is covered: any index that is an usize, any framebuffer with
-   WIDTH, HEIGHT <= i32::MAX whose array fits 2^61 bytes; buffer_size up to 2^24 x 2^24. *)
+   usize is a parameter (class Usize, >= 16 bits). Far more than display scale is covered: any index that is an usize,
+   any framebuffer with WIDTH, HEIGHT <= i32::MAX whose array satisfies 8 * N <= usize::MAX. *)
 From EG Require Import Base.Prelude Model.Rawdata Proofs.Rawdata Model.Framebuffer Proofs.Framebuffer Proofs.RawOverflow.
+
+Section AnyUsize.
+Context {U : Usize}.   (* any usize of at least 16 bits *)
 
 (* load_store.rs bit_position + the u8 shifts of sub-byte load and store, for EVERY usize index *)
 Theorem C08_raw_load_store_bits_total : forall t alt index,
@@ -53,11 +56,19 @@ Proof. exact iter_is_loads. Qed.
 
 (* Framebuffer *)
 Theorem C08_raw_buffer_size_total : forall w h bpp,
-  0 <= w <= 16777216 -> 0 <= h <= 16777216 -> 1 <= bpp <= 32 -> all_ok (buffer_size_sites w h bpp) = true.
+  4294967295 <= usize_max -> 0 <= w <= 4096 -> 0 <= h <= 4096 -> 1 <= bpp <= 32 ->
+  all_ok (buffer_size_sites w h bpp) = true.
 Proof. exact buffer_size_total. Qed.
 
+Theorem C08_raw_buffer_size_total_any_usize : forall w h bpp,
+  0 <= w -> 0 <= h -> 1 <= bpp <= 32 -> w * bpp + 7 <= usize_max -> (w * bpp + 7) / 8 * h <= usize_max ->
+  all_ok (buffer_size_sites w h bpp) = true.
+Proof. exact buffer_size_total_gen. Qed.
+
+(* WIDTH * bpp + 7 <= usize::MAX: the const BUFFER_SIZE (same expression) could be evaluated at compile time *)
 Theorem C08_raw_set_pixel_total : forall c data p,
-  fb_ok c data -> fb_inside c p -> all_ok (set_pixel_sites c (buf_len data) p) = true.
+  fb_ok c data -> fb_w c * bits (fb_t c) + 7 <= usize_max -> fb_inside c p ->
+  all_ok (set_pixel_sites c (buf_len data) p) = true.
 Proof. exact set_pixel_total. Qed.
 
 Theorem C08_raw_set_pixel_oob_noop : forall c data p v,
@@ -72,10 +83,22 @@ Proof. exact fb_pixel_is_load. Qed.
 
 Theorem C08_raw_image_pixel_total : forall im p,
   0 <= img_w im <= i32_max -> 0 <= img_h im <= i32_max ->
+  img_w im * bits (img_t im) + 7 <= usize_max -> img_h im * data_width im <= usize_max ->
   0 <= fst p < img_w im -> 0 <= snd p < img_h im ->
   all_ok (image_pixel_sites im p) = true.
 Proof. exact image_pixel_total. Qed.
 
+Theorem C08_raw_image_pixel_total_64 : forall im p,
+  18446744073709551615 <= usize_max ->
+  0 <= img_w im <= i32_max -> 0 <= img_h im <= i32_max ->
+  0 <= fst p < img_w im -> 0 <= snd p < img_h im ->
+  all_ok (image_pixel_sites im p) = true.
+Proof. exact image_pixel_total64. Qed.
+
+End AnyUsize.
+
+Section Witness.
+Local Existing Instance usize64.
 (* non-vacuity: display-scale instances, and the site lists really contain the comparisons *)
 Example C08_raw_witness :
   all_ok (set_pixel_sites (FbCfg U1 false 1024 1024) 131072 (1023, 1023)) = true /\
@@ -84,5 +107,7 @@ Example C08_raw_witness :
   all_ok (load_store_bits_sites U2 false 18446744073709551615) = true /\
   all_ok (buffer_size_sites 1024 1024 32) = true /\
   all_ok (buffer_size_sites 4294967296 4294967296 32) = false /\
+  all_ok (@buffer_size_sites usize16 1024 1024 32) = false /\
   length (set_pixel_sites (FbCfg U4 true 9 2) 10 (8, 1)) = 11%nat.
 Proof. repeat split; vm_compute; reflexivity. Qed.
+End Witness.
